@@ -43,10 +43,25 @@ def main():
         meta["demo_patched_tail"] = pat.stdout[-600:]
         if not notests:
             t0 = time.time()
-            t = sh(f"cd {wt} && env -u KLONGPY_VERIF PYTHONPATH={wt} /venv/bin/python -m pytest -q -p no:cacheprovider --timeout=900 -x 2>&1 | tail -3",
+            t = sh(f"cd {wt} && env -u KLONGPY_VERIF PYTHONPATH={wt} /venv/bin/python -m pytest -q -p no:cacheprovider --timeout=900 -rf 2>&1 | tail -8",
                    timeout=1800)
             meta["tests_with_patch"] = t.stdout.strip().splitlines()[-1:] + [f"{time.time() - t0:.0f}s"]
-            meta["tests_pass"] = " failed" not in t.stdout and "error" not in t.stdout.lower().split("warnings")[0][-200:]
+            failed = [l.split()[1] for l in t.stdout.splitlines() if l.startswith("FAILED ")]
+            # two wall-clock tests of the repository are flaky under machine load (also on the unmodified tree): rerun them alone
+            flaky = ("tests/test_cli_exit.py::TestCliExit::test_exit_from_file", "tests/test_sys_fn_timer.py::TestSysFnTimer::test_timer_return_1_cancel")
+            still = []
+            for f in failed:
+                ok = False
+                if f.split(" ")[0] in flaky:
+                    for _ in range(3):
+                        r1 = sh(f"cd {wt} && env -u KLONGPY_VERIF PYTHONPATH={wt} /venv/bin/python -m pytest -q -p no:cacheprovider --timeout=900 '{f}' 2>&1 | tail -2", timeout=600)
+                        if " passed" in r1.stdout and " failed" not in r1.stdout:
+                            ok = True
+                            break
+                if not ok:
+                    still.append(f)
+            meta["tests_failed_first_run"] = failed
+            meta["tests_pass"] = not still and ((" passed" in t.stdout) or bool(failed))
         t0 = time.time()
         c = sh(f"cd {VERIF} && KLVERIF_EVIDENCE_DIR=/tmp/se-evidence KLVERIF_REPO={wt} ./check {prop} --tier {tier}", timeout=7200)
         meta["check_cmd"] = f"KLVERIF_REPO=<patched worktree> ./check {prop} --tier {tier}"
